@@ -180,7 +180,7 @@ def _finish_fn(item, sig, body, sig_line, body_line, qual, impl_header, relfile,
             body = RL4.inline_helper_calls(body, hname, hinfo['params'], hinfo['body'], hinfo['has_self'], log, body_line, qual)
         except RL4.UnsupportedConstruct as e:
             raise ExtractError('unsupported construct in %s: %s' % (qual, e))
-    body = RL4.r4_option_combinators(body, log, body_line, qual)
+    body = RL4.r4_option_combinators(body, log, body_line, qual, with_map=bool(item.get('option_map')))
     if item.get('engine') and item.get('r3'):
         from . import rules as RL
         try:
